@@ -33,6 +33,11 @@ hypothesis of C06/C07 — open known finding K1).
 group element of ⟨G⟩, all targets of a key denote the SAME element) every member of `Op.acc` has ONE observable value
 `sval`, the one a sequential execution returns.
 
+A thread runs ONE operation (`initCfg`, `linearizable`, `linearizable_value_partial`) or a finite LIST of operations one
+after the other (`initCfgSeq`, `linearizable_seq`, `linearizable_value_seq_partial`, `schedule_independent_seq_partial`;
+the driver's `a+b` threads are the same `Prog.seqList`).  An operation of a thread does not take the RESULT of an earlier
+operation of the same thread as an operand: result objects are thread-local, so operations on them touch no shared cell.
+
 Outside every theorem here: operands of the legacy class `Point` other than `INFINITY` in `__eq__` / `__add__` / `mul_add`
 (reads of immutable fields only), pickling of keys (`VerifyingKey` has no `__getstate__`; it copies the reference), and
 the table content of a pickled point (`getstate` is observed through its coordinates).
@@ -346,6 +351,74 @@ theorem canonical_stable (E : Env) (hok : ∀ id, ObjOK E id) (full : Nat → Bo
   (Threads.inv_all_schedules E.free E.good E.canon E.good_canon sched _
     (init_inv E hok full ptr0 hp0 ops hwf)).2.2 k hk h
 
+/-! ## threads that run several operations
+
+A thread is a finite LIST of operations, run one after the other (`Prog.seqList`: the programs in sequence, the results as
+a list); an operation does not consume the result of an earlier one of its own thread (result objects are thread-local:
+operations on them touch no shared cell), and an exception of one operation does not stop the thread (the harness catches
+it per operation).  `initCfg … ops` is the special case of singleton lists. -/
+
+/-- the thread that runs `ops` one after the other -/
+def seqThread (E : Env) (ops : List Op) : Thread Cell Val (List (Res Out)) :=
+  ⟨Prog.seqList (ops.map (Op.prog E)), allAny, accAll (ops.map (Op.acc E))⟩
+
+/-- initial configuration with one thread per LIST of operations -/
+def initCfgSeq (E : Env) (full : Nat → Bool) (ptr0 : Nat → Nat) (thr : List (List Op)) : Cfg Cell Val (List (Res Out)) :=
+  ⟨(initCfg E full ptr0 []).heap, thr.map (seqThread E)⟩
+
+/-- a sequence of operations is `Safe` from any phases: each operation is safe from `allAny` (`op_safe`), knowing more
+(what the earlier operations of the thread made canonical) never hurts (`Safe.mono`), and `Safe.bind` composes -/
+theorem seq_safe (E : Env) (hok : ∀ id, ObjOK E id) (ops : List Op) (hwf : ∀ op ∈ ops, op.wf E) (ph : Phases Cell) :
+    Safe E.free E.good E.canon (accAll (ops.map (Op.acc E))) ph (Prog.seqList (ops.map (Op.prog E))) := by
+  have h := Safe.seqList (free := E.free) (good := E.good) (c1 := E.canon)
+    (ops.map fun op => (op.acc E, op.prog E))
+    (by
+      intro ap hap ph'
+      simp only [List.mem_map] at hap
+      obtain ⟨op, hop, rfl⟩ := hap
+      exact (op_safe E hok op (hwf op hop)).mono ph' (by intro k hk; simp [allAny] at hk)) ph
+  simpa [List.map_map, Function.comp_def] using h
+
+theorem init_inv_seq (E : Env) (hok : ∀ id, ObjOK E id) (full : Nat → Bool) (ptr0 : Nat → Nat)
+    (hp0 : ∀ kid, E.targets kid (ptr0 kid)) (thr : List (List Op)) (hwf : ∀ ops ∈ thr, ∀ op ∈ ops, op.wf E) :
+    Inv E.free E.good E.canon (initCfgSeq E full ptr0 thr) := by
+  refine ⟨(init_inv E hok full ptr0 hp0 [] (by simp)).1, ?_, ?_⟩
+  · intro t ht
+    simp only [initCfgSeq, List.mem_map] at ht
+    obtain ⟨ops, hops, rfl⟩ := ht
+    exact seq_safe E hok ops (hwf ops hops) _
+  · intro k _ ⟨t, ht, hph⟩
+    simp only [initCfgSeq, List.mem_map] at ht
+    obtain ⟨ops, _, rfl⟩ := ht
+    simp [seqThread, allAny] at hph
+
+/-- **linearizable_seq**: `linearizable` for threads that each run a LIST of operations: under any schedule the cells
+hold only allowed values, and a thread that has finished has returned, for every one of its operations in order, a
+result accepted by that operation's `Op.acc` -/
+theorem linearizable_seq (E : Env) (hok : ∀ id, ObjOK E id) (full : Nat → Bool) (ptr0 : Nat → Nat)
+    (hp0 : ∀ kid, E.targets kid (ptr0 kid)) (thr : List (List Op)) (hwf : ∀ ops ∈ thr, ∀ op ∈ ops, op.wf E)
+    (sched : List Nat) :
+    (∀ k, E.good k ((run E.canon (initCfgSeq E full ptr0 thr) sched).heap k)) ∧
+    (∀ (j : Nat) (ops : List Op) (t : Thread Cell Val (List (Res Out))) (rs : List (Res Out)), thr[j]? = some ops →
+        (run E.canon (initCfgSeq E full ptr0 thr) sched).thr[j]? = some t → t.prog = .ret rs →
+        accAll (ops.map (Op.acc E)) rs) := by
+  have hinit := init_inv_seq E hok full ptr0 hp0 thr hwf
+  have hinv := Threads.inv_all_schedules E.free E.good E.canon E.good_canon sched _ hinit
+  refine ⟨hinv.1, ?_⟩
+  intro j ops t rs hops ht hr
+  have h0 : (initCfgSeq E full ptr0 thr).thr[j]? = some (seqThread E ops) := by
+    simp [initCfgSeq, hops]
+  exact Threads.finished_result_ok E.free E.good E.canon E.good_canon _ hinit sched j _ t rs h0 ht hr
+
+/-- `canonical_stable` for threads that run lists of operations -/
+theorem canonical_stable_seq (E : Env) (hok : ∀ id, ObjOK E id) (full : Nat → Bool) (ptr0 : Nat → Nat)
+    (hp0 : ∀ kid, E.targets kid (ptr0 kid)) (thr : List (List Op)) (hwf : ∀ ops ∈ thr, ∀ op ∈ ops, op.wf E)
+    (sched : List Nat) (k : Cell) (hk : ¬ E.free k)
+    (h : ∃ t ∈ (run E.canon (initCfgSeq E full ptr0 thr) sched).thr, t.ph k = .canon) :
+    (run E.canon (initCfgSeq E full ptr0 thr) sched).heap k = E.canon k :=
+  (Threads.inv_all_schedules E.free E.good E.canon E.good_canon sched _
+    (init_inv_seq E hok full ptr0 hp0 thr hwf)).2.2 k hk h
+
 /-! ## the hypotheses hold for valid points (C06 / C07) -/
 
 section
@@ -510,6 +583,52 @@ theorem schedule_independent_partial (hp2 : p ≠ 2) (C : Ctx p a b) (E : Env) (
     obs E op.subject r = obs E op.subject r' := by
   rw [(linearizable_value_partial hp2 C E g hv full ptr0 hp0 ops hwf sched).2 j op t r hop ht hr,
     (linearizable_value_partial hp2 C E g hv full ptr0 hp0 ops hwf sched').2 j op t' r' hop ht' hr']
+/-- the observable values of a list of results -/
+noncomputable def obsAll (E : Env) : List Op → List (Res Out) → List (Res ObsV)
+  | op :: ops, r :: rs => obs E op.subject r :: obsAll E ops rs
+  | _, _ => []
+
+theorem accAll_value (hp2 : p ≠ 2) (C : Ctx p a b) (E : Env) (g : Nat → Grp (a : ZMod p) (b : ZMod p))
+    (hv : Valid C E g) (tgt : Nat → Nat) (htgt : ∀ kid, E.targets kid (tgt kid)) :
+    ∀ (ops : List Op) (rs : List (Res Out)), accAll (ops.map (Op.acc E)) rs →
+      rs.length = ops.length ∧ obsAll E ops rs = ops.map (sval E g tgt)
+  | [], [], _ => ⟨rfl, rfl⟩
+  | [], _ :: _, h => by simp [accAll] at h
+  | _ :: _, [], h => by simp [accAll] at h
+  | op :: ops, r :: rs, h => by
+    simp only [List.map_cons, accAll] at h
+    obtain ⟨h1, h2⟩ := accAll_value hp2 C E g hv tgt htgt ops rs h.2
+    refine ⟨by simp [h1], ?_⟩
+    simp only [obsAll, List.map_cons, h2, acc_value hp2 C E g hv tgt htgt op r h.1]
+
+/-- **linearizable_value_seq_partial** (the property for "threads each running one or two operations" — here ANY finite
+number; partial as `linearizable_value_partial`: p an odd prime, ⟨G⟩ of odd order — N2T): under ANY schedule of ANY
+number of threads, each running a list of operations, a thread that has finished has returned one result per operation,
+and the observable values are `sval op` in order — the values of the operations run alone, one after another, in
+whatever order -/
+theorem linearizable_value_seq_partial (hp2 : p ≠ 2) (C : Ctx p a b) (E : Env) (g : Nat → Grp (a : ZMod p) (b : ZMod p))
+    (hv : Valid C E g) (full : Nat → Bool) (ptr0 : Nat → Nat) (hp0 : ∀ kid, E.targets kid (ptr0 kid))
+    (thr : List (List Op)) (hwf : ∀ ops ∈ thr, ∀ op ∈ ops, op.wf E) (sched : List Nat) :
+    (∀ k, E.good k ((run E.canon (initCfgSeq E full ptr0 thr) sched).heap k)) ∧
+    (∀ (j : Nat) (ops : List Op) (t : Thread Cell Val (List (Res Out))) (rs : List (Res Out)), thr[j]? = some ops →
+        (run E.canon (initCfgSeq E full ptr0 thr) sched).thr[j]? = some t → t.prog = .ret rs →
+        rs.length = ops.length ∧ obsAll E ops rs = ops.map (sval E g ptr0)) := by
+  have hl := linearizable_seq E hv.objOK full ptr0 hp0 thr hwf sched
+  refine ⟨hl.1, ?_⟩
+  intro j ops t rs hops ht hr
+  exact accAll_value hp2 C E g hv ptr0 hp0 ops rs (hl.2 j ops t rs hops ht hr)
+
+/-- … and the observable values of a finished thread do not depend on the schedule -/
+theorem schedule_independent_seq_partial (hp2 : p ≠ 2) (C : Ctx p a b) (E : Env)
+    (g : Nat → Grp (a : ZMod p) (b : ZMod p)) (hv : Valid C E g) (full : Nat → Bool) (ptr0 : Nat → Nat)
+    (hp0 : ∀ kid, E.targets kid (ptr0 kid)) (thr : List (List Op)) (hwf : ∀ ops ∈ thr, ∀ op ∈ ops, op.wf E)
+    (sched sched' : List Nat) (j : Nat) (ops : List Op) (t t' : Thread Cell Val (List (Res Out)))
+    (rs rs' : List (Res Out)) (hops : thr[j]? = some ops)
+    (ht : (run E.canon (initCfgSeq E full ptr0 thr) sched).thr[j]? = some t) (hr : t.prog = .ret rs)
+    (ht' : (run E.canon (initCfgSeq E full ptr0 thr) sched').thr[j]? = some t') (hr' : t'.prog = .ret rs') :
+    obsAll E ops rs = obsAll E ops rs' := by
+  rw [((linearizable_value_seq_partial hp2 C E g hv full ptr0 hp0 thr hwf sched).2 j ops t rs hops ht hr).2,
+    ((linearizable_value_seq_partial hp2 C E g hv full ptr0 hp0 thr hwf sched').2 j ops t' rs' hops ht' hr').2]
 end value
 
 /-! ## non-vacuity: a concrete object on the toy curve y² = x³ + x + 6 over F₁₁ (13 points) -/
@@ -617,5 +736,24 @@ example : ∃ (C : GroupInterface.Ctx 11 1 6) (g : Jac.Grp ((1 : ℤ) : ZMod 11)
   exact (linearizable_value_partial (by decide) C toyGenEnv (fun _ => g) hv (fun _ => false) (fun _ => 0) (fun _ => rfl)
     ops (by intro op hop; simp [ops] at hop; rcases hop with rfl | rfl | rfl | rfl | rfl | rfl <;> trivial) sched).2
     j op t r hop ht hr
+
+/-- … and for threads that run TWO operations each: [`scale()`, `x()`] ∥ [`P * 5`, `P == P`] ∥ [`to_affine()`,
+verification], any schedule -/
+example : ∃ (C : GroupInterface.Ctx 11 1 6) (g : Jac.Grp ((1 : ℤ) : ZMod 11) ((6 : ℤ) : ZMod 11)),
+    ∀ (sched : List Nat) (j : Nat) (ops : List Op) (t : Thread Cell Val (List (Res Out))) (rs : List (Res Out)),
+      let thr : List (List Op) := [[.scale 0, .x 0], [.mul 0 5, .eq 0 0], [.toAffine 0, .keyVerifies 1 0 7 3 7]]
+      thr[j]? = some ops →
+      (run toyGenEnv.canon (initCfgSeq toyGenEnv (fun _ => false) (fun _ => 0) thr) sched).thr[j]? = some t →
+      t.prog = .ret rs →
+      rs.length = ops.length ∧ obsAll toyGenEnv ops rs = ops.map (sval toyGenEnv (fun _ => g) (fun _ => 0)) := by
+  obtain ⟨C, g, _, hv, _⟩ := toy_gen_valid
+  refine ⟨C, g, ?_⟩
+  intro sched j ops t rs thr hops ht hr
+  exact (linearizable_value_seq_partial (by decide) C toyGenEnv (fun _ => g) hv (fun _ => false) (fun _ => 0)
+    (fun _ => rfl) thr (by
+      intro ops hops op hop
+      simp [thr] at hops
+      rcases hops with rfl | rfl | rfl <;> simp at hop <;> rcases hop with rfl | rfl <;> trivial) sched).2
+    j ops t rs hops ht hr
 
 end C18
